@@ -16,6 +16,13 @@ IDS = {"request", "session", "publication", "subscription", "registration", "pub
 PT = {"payload", "enc_algo", "enc_key", "enc_serializer"}
 
 
+URI_MENU = {
+    "exact": ["com.myapp.thing1", "a"],
+    "prefix": ["com.myapp.thing1", "com.myapp.", "com"],
+    "wildcard": ["com.myapp.thing1", "com..thing1", ".myapp.thing1", "com.myapp..", ".", "com..."],
+}
+
+
 def classes():
     from autobahn.wamp import serializer
     return dict((cls.__name__, cls) for code, cls in serializer.Serializer.MESSAGE_TYPE_MAP.items())
@@ -150,6 +157,11 @@ def build(sx, cname, present, tag=""):
         present.append("resume_token")
     for n in present:
         kw[n] = value(sx, cname, n, tag)
+    if cname in ("Subscribe", "Register"):
+        # the URI grammar depends on the match policy: patterns with empty components are valid exactly where the policy admits them
+        key = "topic" if cname == "Subscribe" else "procedure"
+        menu = URI_MENU[kw.get("match") or "exact"]
+        kw[key] = menu[sx.choice("%s.%s.uri%s" % (cname, key, tag), len(menu))] if hasattr(sx, "choice") else menu[0]
     return cls(**kw), kw
 
 
